@@ -23,6 +23,9 @@ var (
 	regDirective = regexp.MustCompile(`(?m).*` + Keyword + `([a-z]*)( .*)?`)
 )
 
+// maxPasses is the number of times a profile is scanned for directives.
+const maxPasses = 3
+
 // Directive main interface
 type Directive interface {
 	prebuild.BaseInterface
@@ -102,15 +105,23 @@ func RegisterDirective(d Directive) {
 
 func Run(file *paths.Path, profile string) (string, error) {
 	var err error
-	for _, match := range regDirective.FindAllStringSubmatch(profile, -1) {
-		opt := NewOption(file, match)
-		drtv, ok := Directives[opt.Name]
-		if !ok {
-			return "", fmt.Errorf("unknown directive '%s' in %s", opt.Name, opt.File)
+	// A directive (stack) can bring in text that itself contains directives:
+	// scan again until none is left. Bounded, as a directive may stack another.
+	for pass := 0; pass < maxPasses; pass++ {
+		matches := regDirective.FindAllStringSubmatch(profile, -1)
+		if len(matches) == 0 {
+			break
 		}
-		profile, err = drtv.Apply(opt, profile)
-		if err != nil {
-			return "", fmt.Errorf("%s %s: %w", drtv.Name(), opt.File, err)
+		for _, match := range matches {
+			opt := NewOption(file, match)
+			drtv, ok := Directives[opt.Name]
+			if !ok {
+				return "", fmt.Errorf("unknown directive '%s' in %s", opt.Name, opt.File)
+			}
+			profile, err = drtv.Apply(opt, profile)
+			if err != nil {
+				return "", fmt.Errorf("%s %s: %w", drtv.Name(), opt.File, err)
+			}
 		}
 	}
 	return profile, nil
